@@ -5,7 +5,7 @@
    development; the products land next to this file. *)
 Require Import ExtrOcamlBasic ExtrOcamlString.
 Require Import Fsic.Base.PyBase Fsic.Parser.PyStr Fsic.Parser.Lex Fsic.Parser.Symbols Fsic.Parser.ParseEq
-               Fsic.Parser.ParseModel Fsic.Graph.GLex Fsic.Graph.GNorm Fsic.Graph.Graph Fsic.Layout.Denorm.
+               Fsic.Parser.ParseModel Fsic.Graph.GLex Fsic.Graph.GNorm Fsic.Graph.Graph Fsic.Graph.GTokenise Fsic.Graph.GraphSrcWf Fsic.Layout.Denorm.
 Extraction Language OCaml.
 Extraction "Extract/Graph/graph_model.ml"
-  symbols_to_graph_M nx_edges neq_wf neq_text varlike_id finditer_group0 string_of_Z type_name parse_model_nocheck parse_equation_M dq_ok_canon denorm_canon neq_code.
+  symbols_to_graph_M nx_edges neq_wf neq_text varlike_id finditer_group0 string_of_Z type_name parse_model_nocheck parse_equation_M dq_ok_canon denorm_canon neq_code tokenise sep_ok canon.
